@@ -573,8 +573,60 @@ unmodelled_fd!(writev, "writev", (fd: c_int, iov: *const libc::iovec, n: c_int),
 unmodelled_fd!(pwritev64, "pwritev64", (fd: c_int, iov: *const libc::iovec, n: c_int, o: off64_t), ssize_t, fd);
 unmodelled_fd!(fallocate64, "fallocate64", (fd: c_int, m: c_int, o: off64_t, l: off64_t), c_int, fd);
 unmodelled_fd!(posix_fallocate64, "posix_fallocate64", (fd: c_int, o: off64_t, l: off64_t), c_int, fd);
-unmodelled_fd!(sendfile64, "sendfile64", (fd: c_int, i: c_int, o: *mut off64_t, n: size_t), ssize_t, fd);
-unmodelled_fd!(copy_file_range, "copy_file_range", (i: c_int, oi: *mut off64_t, fd: c_int, oo: *mut off64_t, n: size_t, f: libc::c_uint), ssize_t, fd);
+/// in-kernel copies (std::fs::copy): modelled as a write of the bytes that arrived in the output
+/// file. Only the NULL-offset form std uses is modelled; explicit offsets end the run as unmodelled.
+unsafe fn model_kernel_copy(what: &str, fd_in: c_int, fd_out: c_int, explicit_offsets: bool, do_call: impl FnOnce() -> ssize_t) -> ssize_t {
+    let tracked = active() && {
+        let _b = Bypass::new();
+        try_with_sim(|s| s.fd_tracked(fd_out)).unwrap_or(false)
+    };
+    if !tracked {
+        return do_call();
+    }
+    sched_point();
+    let _b = Bypass::new();
+    if explicit_offsets {
+        try_with_sim(|s| s.unmodelled(&format!("{what} with explicit offsets")));
+        return do_call();
+    }
+    let verdict = try_with_sim(|s| s.pre_write(fd_out, 0)).unwrap_or(Verdict::Pass);
+    if let Verdict::Fail(e) = verdict {
+        try_with_sim(|s| s.post_write(fd_out, &[], -1, 0, e));
+        set_errno(e);
+        return -1;
+    }
+    let r = do_call();
+    let e = if r < 0 { get_errno() } else { 0 };
+    let real_lseek = real!("lseek64", fn(c_int, off64_t, c_int) -> off64_t);
+    let real_pread = real!("pread64", fn(c_int, *mut c_void, size_t, off64_t) -> ssize_t);
+    let mut data: Vec<u8> = Vec::new();
+    if r > 0 {
+        let in_end = real_lseek(fd_in, 0, libc::SEEK_CUR);
+        data.resize(r as usize, 0);
+        let got = real_pread(fd_in, data.as_mut_ptr() as *mut c_void, r as usize, in_end - r as off64_t);
+        if got != r {
+            try_with_sim(|s| s.unmodelled(&format!("{what}: could not read back the copied bytes")));
+        }
+    }
+    let out_end = real_lseek(fd_out, 0, libc::SEEK_CUR);
+    try_with_sim(|s| s.post_write(fd_out, &data, r as i64, out_end as i64, e));
+    if r < 0 {
+        set_errno(e);
+    }
+    r
+}
+
+#[no_mangle]
+pub unsafe extern "C" fn sendfile64(fd_out: c_int, fd_in: c_int, off: *mut off64_t, n: size_t) -> ssize_t {
+    let realf = real!("sendfile64", fn(c_int, c_int, *mut off64_t, size_t) -> ssize_t);
+    model_kernel_copy("sendfile64", fd_in, fd_out, !off.is_null(), || realf(fd_out, fd_in, off, n))
+}
+
+#[no_mangle]
+pub unsafe extern "C" fn copy_file_range(fd_in: c_int, off_in: *mut off64_t, fd_out: c_int, off_out: *mut off64_t, n: size_t, flags: libc::c_uint) -> ssize_t {
+    let realf = real!("copy_file_range", fn(c_int, *mut off64_t, c_int, *mut off64_t, size_t, libc::c_uint) -> ssize_t);
+    model_kernel_copy("copy_file_range", fd_in, fd_out, !off_in.is_null() || !off_out.is_null(), || realf(fd_in, off_in, fd_out, off_out, n, flags))
+}
 unmodelled_path!(truncate64, "truncate64", (p: *const c_char, l: off64_t), c_int, [p]);
 unmodelled_path!(link, "link", (a: *const c_char, b: *const c_char), c_int, [a, b]);
 unmodelled_path!(symlink, "symlink", (a: *const c_char, b: *const c_char), c_int, [b]);
